@@ -5,6 +5,7 @@ package sym
 import (
 	"errors"
 	"fmt"
+	"go/token"
 	"go/types"
 	"path"
 	"reflect"
@@ -464,6 +465,21 @@ func BaseStubs() map[string]StubFn {
 			}
 			return simplifyBool(cond(c))
 		}
+	}
+	// token.IsKeyword on a byte vector: equality with one of the keywords
+	st["go/token.IsKeyword"] = func(r *Run, fr *frame, fn *ssa.Function, a []value) value {
+		v, ok := a[0].(runesV)
+		if !ok {
+			if s, isStr := a[0].(string); isStr {
+				return token.IsKeyword(s)
+			}
+			panic(unsupported("symbolic argument to go/token.IsKeyword"))
+		}
+		var alts []*Term
+		for t := token.BREAK; t <= token.VAR; t++ {
+			alts = append(alts, runesEq(v, vecOf(t.String(), v.bytes)))
+		}
+		return simplifyBool(Or(alts...))
 	}
 	st["unicode.IsLetter"] = pure(unicode.IsLetter, asciiClass("unicode.IsLetter", func(c *Term) *Term {
 		return Or(And(Le(IntT('A'), c), Le(c, IntT('Z'))), And(Le(IntT('a'), c), Le(c, IntT('z'))))
